@@ -103,6 +103,8 @@ type Term struct {
 	// eval memo
 	evEpoch int
 	evVal   uint64
+	kz      uint64
+	kzSet   bool
 	// size (number of distinct nodes is expensive; this is tree-depth bound)
 	depth int32
 }
@@ -532,6 +534,9 @@ func (tb *TB) And(a, b *Term) *Term {
 	}
 	if isC(b, mask(a.T.W)) || a == b {
 		return a
+	}
+	if b.IsConst() && b.V&^tb.knownZero(a)&mask(a.T.W) == 0 {
+		return tb.Const(a.T, 0) // the mask selects only bits that are always zero
 	}
 	// (x & y) & c  ->  (x & c) & (y & c): keeps every symbolic-by-symbolic conjunction confined to
 	// the bits of the constant mask (cheap in the integer back-end)
